@@ -29,7 +29,7 @@ impl ProgProperty for C17 {
         }
     }
     fn mix(&self, _tier: Tier) -> Mix {
-        Mix { raw: 10, strukt: 20, div: 0, wide: 0, big: 0, roam: 70, deep: 0, commented: 0 }
+        Mix { raw: 10, strukt: 20, div: 0, wide: 0, big: 0, roam: 70, deep: 0, commented: 0, hibits: 0 }
     }
     fn max_steps(&self) -> u64 {
         500_000
